@@ -69,6 +69,9 @@ func H_C13_line() {
 		slog.Any("tm", c13TM{out: str(9, "text")}),
 		slog.Any("as", AnsiString{"\x1b[31m", str(10, "ansi")}),
 		slog.Any("lv", c13LV{slog.StringValue("deferred")}),
+		slog.Any("lvg", c13LV{slog.GroupValue(slog.String("m", "GET"), slog.Any("in", c13LV{slog.GroupValue(slog.Int("z", 3))}))}),
+		slog.Any("", c13LV{slog.GroupValue(slog.String("inlv", "y"))}),
+		slog.Any("lve", c13LV{slog.GroupValue()}),
 		slog.Any("bs", []byte("by tes")),
 		slog.Bool("ok", true),
 		slog.Duration("d", 1500*time.Millisecond),
@@ -105,6 +108,9 @@ func H_C13_line() {
 		{[]byte(gp + "tm"), []byte(str(9, "text"))},
 		{[]byte(gp + "as"), []byte(str(10, "ansi"))},
 		{[]byte(gp + "lv"), []byte("deferred")},
+		{[]byte(gp + "lvg.m"), []byte("GET")},
+		{[]byte(gp + "lvg.in.z"), []byte("3")},
+		{[]byte(gp + "inlv"), []byte("y")},
 		{[]byte(gp + "bs"), []byte("by tes")},
 		{[]byte(gp + "ok"), []byte("true")},
 		{[]byte(gp + "d"), []byte("1.5s")},
